@@ -101,7 +101,22 @@ def implication_table(ctx):
                     groups[label]['conditional'][s] = extra
                 else:
                     groups[label]['species'].add(s)
-    ctx.floor('C11-R3/table', len(groups), 8, 'species groups in enabled_species')
+    # R6: a species that has a switch of its own must be enabled by that switch
+    ec = m.cls('EmissionsConfig')
+    own = set(ec.all_fields()) | set(ec.methods)
+    for label, g in sorted(groups.items()):
+        for sp in sorted(g['species'] | set(g['conditional'])):
+            mine = f'{sp.lower()}_enabled'
+            if mine in own and sp.lower() != label:
+                ctx.ob('C11-R6', fi, f'Species.{sp} enabled by `{label}_enabled`', False,
+                       f'EmissionsConfig has `{mine}` (from {sp.lower()}_method), but enabled_species puts Species.{sp} in the '
+                       f'`{label}` group: switching {sp} off has no effect and it keeps being computed (and switching '
+                       f'{label.upper()} off removes it)', line=fi.node.lineno)
+            else:
+                ctx.ob('C11-R6', fi, f'Species.{sp} enabled by `{label}_enabled`', True,
+                       'own switch' if sp.lower() == label else 'member of a multi-species group without a switch of its own',
+                       line=fi.node.lineno, nontrivial=False)
+    ctx.floor('C11-R3/table', len(groups), 7, 'species groups in enabled_species')
     return groups
 
 
@@ -490,7 +505,55 @@ def rule_switches(ctx):
                'with exactly one of them on, totals no longer equal the sum of the parts')
 
 
+def rule_lifecycle(ctx):
+    """R5b: the life-cycle CO2 adjustment that is *reported* and the one that is
+    *added to the CO2 total* are produced under the same configuration switches."""
+    prog = ctx.prog
+    m = prog.module('emissions/emission.py')
+    ce = m.func('compute_emissions')
+
+    def cfg_atoms(node):
+        out = set()
+        for t, pol in facts_at(ce.node, node):
+            if isinstance(t, ast.Compare) and isinstance(t.comparators[0], ast.pattern):
+                continue
+            txt = norm(t)
+            if 'config.emissions' in txt:
+                out.add(('' if pol else 'not ') + txt)
+        return out
+
+    def effective(site, val):
+        g = cfg_atoms(site)
+        if isinstance(val, ast.Name):
+            defs = [st for t, st, how in stores_to(ce.node) if isinstance(t, ast.Name) and t.id == val.id
+                    and not (isinstance(getattr(st, 'value', None), ast.Constant) and st.value.value in (None, 0, 0.0))]
+            if len(defs) == 1:
+                g |= cfg_atoms(defs[0])
+        return g
+
+    add_site = rep_site = None
+    for x in walk_no_nested(ce.node):
+        if isinstance(x, ast.AugAssign) and norm(x.target).endswith('total_emissions[Species.CO2]'):
+            add_site = (x, x.value)
+        if isinstance(x, ast.Assign) and isinstance(x.targets[0], ast.Attribute) and x.targets[0].attr == 'lifecycle_co2':
+            rep_site = (x, x.value)
+        if isinstance(x, ast.Call) and call_name(x) == 'Emissions':
+            for k in x.keywords:
+                if k.arg == 'lifecycle_co2':
+                    rep_site = (x, k.value)
+    if add_site is None or rep_site is None:
+        ctx.undecided('C11-R5', ce, 'life-cycle adjustment', 'add / report sites not found')
+    ga, gr = effective(*add_site), effective(*rep_site)
+    ok = ga == gr and bool(ga)
+    ctx.ob('C11-R5', ce, f'life-cycle CO2: added under {sorted(ga)}, reported under {sorted(gr)}', ok,
+           'one condition for both' if ok else
+           'the reported life-cycle adjustment and the one added to the CO2 total are governed by different switches: '
+           'for the combination where they differ the CO2 total no longer equals the sum of its parts plus the reported adjustment',
+           line=add_site[0].lineno)
+
+
 def run(ctx):
+    rule_lifecycle(ctx)
     groups = implication_table(ctx)
     ctx.stats['species_groups'] = {k: sorted(v['species']) + [f'{s}?' for s in v['conditional']] for k, v in groups.items()}
     rule_dispatch(ctx)
